@@ -103,6 +103,12 @@ func NewSigner(ver version.Version, certs certurl.CertChain, privKey crypto.Priv
 	if err := certs.Validate(); err != nil {
 		return nil, err
 	}
+	// A signature made with a key other than the certificate's never verifies.
+	if signer, ok := privKey.(crypto.Signer); ok && certs[0].Cert != nil {
+		if pub, ok := signer.Public().(interface{ Equal(crypto.PublicKey) bool }); ok && !pub.Equal(certs[0].Cert.PublicKey) {
+			return nil, errors.New("signature: the private key does not match the public key of the certificate")
+		}
+	}
 	authSha256 := certs[0].CertSha256()
 
 	return &Signer{
